@@ -163,8 +163,9 @@ def r14_2_3(ctx):
     else:
         ctx.bad("R14.3", ps.module, ps.qual, "IMAPSearch('and', search_key=self._p_list_of(self._p_search_key))", "top-level search keys are no longer AND-ed", ps.node.lineno)
     pk = p.func("parse.IMAPClientCommand._p_search_key")
-    txt = " ".join(norm(s, 2000) for s in pk.node.body)
-    if "return IMAPSearch('and', search_key=search_key)" in txt and "return IMAPSearch('message_set', msg_set=msg_set)" in txt:
+    from .common import pm_of
+    pmk = pm_of(p, pk)
+    if pmk.has("return IMAPSearch('and', search_key=search_key)") and pmk.has("return IMAPSearch('message_set', msg_set=msg_set)"):
         ctx.ok("R14.3", where(pk), "parenthesised list = AND; bare set = message_set")
     else:
         ctx.bad("R14.3", pk.module, pk.qual, "paren list / bare set", "parenthesised lists or bare sequence sets are no longer desugared to and / message_set", pk.node.lineno)
@@ -193,20 +194,21 @@ def r14_4(ctx):
     else:
         ctx.bad("R14.4", mk.module, mk.qual, "flag_to_seq(self.args['keyword'])", "flag keyword is compared without mapping it to its MH sequence name", mk.node.lineno)
     ms = p.func("mbox.Mailbox.search")
-    txt = " ".join(norm(s, 3000) for s in ms.node.body)
+    from .common import pm_of
+    pm = pm_of(p, ms)
     checks = [
-        ("for idx, msg_key in enumerate(self.msg_keys)" in txt, "iterates every message of the mailbox in sequence order"),
-        ("msg_seq_num = idx + 1" in txt, "sequence number = index + 1"),
-        ("SearchContext(self, msg_key, msg_seq_num, seq_max, uid_max)" in txt, "context gets (key, sequence number, seq_max, uid_max)"),
-        ("seq_max = self.num_msgs" in txt and "uid_max = self.uids[-1]" in txt, "seq_max = message count, uid_max = last UID"),
-        ("results.append(msg_seq_num)" in txt, "SEARCH returns sequence numbers"),
+        (pm.has("for idx, msg_key in enumerate(self.msg_keys):\n    ..."), "iterates every message of the mailbox in sequence order"),
+        (pm.has("msg_seq_num = idx + 1"), "sequence number = index + 1"),
+        (pm.has("seq_max = self.num_msgs") and pm.has("uid_max = self.uids[-1]"), "seq_max = message count, uid_max = last UID"),
+        (pm.has("SearchContext(self, msg_key, msg_seq_num, seq_max, uid_max)"), "context gets (key, sequence number, seq_max, uid_max)"),
+        (pm.has("results.append(msg_seq_num)"), "SEARCH returns sequence numbers"),
     ]
     for okv, what in checks:
         if okv:
             ctx.ok("R14.4", where(ms), what)
         else:
             ctx.bad("R14.4", ms.module, ms.qual, what, f"Mailbox.search lost: {what}", ms.node.lineno)
-    uid_ok = any(isinstance(s, ast.If) and norm(s.test) == "uid_cmd" and any("uid = ctx.uid()" in norm(b) for b in s.body) and any("results.append(uid)" in norm(b) for b in s.body) for s in body_walk(ms.node))
+    uid_ok = pm.has("if uid_cmd:\n    uid = ctx.uid()\n    ...\n    results.append(uid)\nelse:\n    results.append(msg_seq_num)") or pm.has("if uid_cmd:\n    results.append(ctx.uid())\nelse:\n    results.append(msg_seq_num)")
     if uid_ok:
         ctx.ok("R14.4", where(ms), "UID SEARCH returns ctx.uid() of each match (mapped through the UID table)")
     else:
@@ -229,12 +231,14 @@ def r14_5(ctx):
         left, right = norm(cmp_.left), norm(cmp_.comparators[0])
         arg = "self.args['date']" if "date" in val else "self.args['n']"
         # value provenance
-        body = " ".join(norm(s, 800) for s in m.node.body)
-        prov = {
-            "internal_date": "self.ctx.internal_date().date()" in body.replace("(self.ctx.internal_date())", "self.ctx.internal_date()"),
-            "date_header": "parsedate(msg['date']).date()" in body,
-            "msg_size": "self.ctx.msg_size()" in body,
-        }[val]
+        from .common import pm_of
+        pmm = pm_of(p, m)
+        if val == "internal_date":
+            prov = pmm.has("v = self.ctx.internal_date().date()") and norm(cmp_.left) == pmm.name("v")
+        elif val == "date_header":
+            prov = pmm.has("msg = self.ctx.msg()") and pmm.has("v = parsedate(msg['date']).date()") and norm(cmp_.left) == pmm.name("v")
+        else:
+            prov = pmm.has("v = self.ctx.msg_size()") and norm(cmp_.left) == pmm.name("v")
         if got == want and right == arg and prov:
             ctx.ok("R14.5", where(m), f"{op.upper()}: <{val}> {want} <argument>")
         else:
@@ -246,9 +250,10 @@ def r14_5(ctx):
         ctx.bad("R14.5", mn.module, mn.qual, "return not await ...match(ctx)", "NOT no longer negates its sub-key", mn.node.lineno)
     for op, fn in (("and", "all"), ("or", "any")):
         m = sc.methods[f"_match_{op}"]
-        txt = norm(m.node, 3000)
+        from .common import pm_of
+        pmm = pm_of(p, m)
         other = "any" if fn == "all" else "all"
-        if f"if {fn}((x.result() for x in tasks))" in txt and f"if {other}((x.result()" not in txt and "for search_op in self.args['search_key']" in txt:
+        if pmm.has(f"if {fn}((x.result() for x in tasks)):\n    return True") and not pmm.has(f"{other}(...)") and pmm.has("for search_op in self.args['search_key']:\n    tasks.append(tg.create_task(search_op.match(self.ctx)))"):
             ctx.ok("R14.5", where(m), f"{op.upper()} = {fn}() over every sub-key")
         else:
             ctx.bad("R14.5", m.module, m.qual, f"{fn}(x.result() for x in tasks)", f"{op.upper()} no longer combines all of its sub-keys with {fn}()", m.node.lineno)
